@@ -29,7 +29,7 @@ var truthValues = []lang.Value{
 }
 
 // truthProvenances: how the value reaches the truth-consuming position.
-var truthProvenances = []string{"literal", "assigned", "setvariable", "structfield", "mapfield", "builtin", "hostfunction", "absentname", "folded"}
+var truthProvenances = []string{"literal", "assigned", "setvariable", "structfield", "mapfield", "builtin", "hostfunction", "absentname", "folded", "element", "member", "indexedmember"}
 
 // builtinExprFor returns an expression made of built-in calls that
 // evaluates to a freshly allocated object equal to v (ok=false if none).
@@ -103,6 +103,17 @@ func truthOperand(c *Case, prelude *string, name string, v lang.Value, prov stri
 			e = lang.Binary{Op: "-", L: lit(0), R: e}
 		}
 		return e, true
+	case "element":
+		// the value sits in an array the host set: name[0]
+		c.Vars[name+"arr"] = lang.Array(v, lang.Int(7))
+		return lang.Index{X: lang.Name{N: name + "arr"}, I: lang.Lit{V: lang.Int(0)}}, true
+	case "member", "indexedmember":
+		// ... in a hash: name.k, name["k"]
+		c.Vars[name+"hash"] = lang.Hash(lang.Pair{K: lang.Str("k"), V: v})
+		if prov == "member" {
+			return lang.Dot{X: lang.Name{N: name + "hash"}, N: "k"}, true
+		}
+		return lang.Index{X: lang.Name{N: name + "hash"}, I: lang.Lit{V: lang.Str("k")}}, true
 	case "absentname":
 		// null by absence: a name that is neither a variable nor a field
 		if v.K != lang.KNull {
@@ -428,10 +439,17 @@ func TestC05Random(t *testing.T) {
 				return lang.Unary{Op: "!", X: lang.Binary{Op: "&&", L: x, R: lang.Lit{V: lang.Bool(true)}}}, !tx
 			case 1:
 				l, tl := build(d - 1)
+				if gen.Uniform(rt, "andtrue", 5) == 0 {
+					// x && true: the truth of x, as a boolean
+					return lang.Binary{Op: "&&", L: l, R: lang.Lit{V: lang.Bool(true)}}, tl
+				}
 				r, tr := build(d - 1)
 				return lang.Binary{Op: "&&", L: l, R: r}, tl && tr
 			}
 			l, tl := build(d - 1)
+			if gen.Uniform(rt, "orfalse", 5) == 0 {
+				return lang.Binary{Op: "||", L: l, R: lang.Lit{V: lang.Bool(false)}}, tl
+			}
 			r, tr := build(d - 1)
 			return lang.Binary{Op: "||", L: l, R: r}, tl || tr
 		}
